@@ -551,6 +551,7 @@ static void free_all(void)
 #include "ops_vnacal.inc"
 #include "ops_conv.inc"
 #include "ops_peek.inc"
+#include "opsx_all.inc"	/* generated: every harness/opsx_*.inc */
 
 typedef void op_fn(ctx_t *c);
 static const struct optab {
